@@ -335,8 +335,10 @@ fn damage(t: &mut Tape, bytes: &mut Vec<u8>, other: &[u8], rep: &mut WorldReport
             for i in 0..bytes.len().saturating_sub(3) {
                 let short = (0x81..=0x97).contains(&bytes[i]) && bytes[i + 1] < 0x18 && bytes[i + 2] < 0x20;
                 let long = bytes[i] == 0x98 && bytes[i + 2] <= 0x18 + 1;
-                if (short || long) && t.chance(1, 3) {
-                    at = Some((i, if long { 2 } else { 1 }));
+                // ... or of a byte string (the other shape a byte field can take on the wire)
+                let bstr = bytes[i] == 0x58 && (bytes[i + 1] == 0x1c || bytes[i + 1] == 0x20 || bytes[i + 1] == 0x1d || bytes[i + 1] == 0x39);
+                if (short || long || bstr) && t.chance(1, 3) {
+                    at = Some((i, if long || bstr { 2 } else { 1 }));
                     break;
                 }
             }
